@@ -21,20 +21,35 @@ func (g *G) SharedSectionsChange() *Change {
 	for _, n := range names {
 		meta = append(meta, MetaVar{n, "expression"})
 	}
-	// section i mentions 1..3 consecutive metavariables (cyclically), so that with k >= m every one is shared
-	secs := make([][]string, k)
-	for i := range secs {
-		ar := 2
-		switch r.Intn(4) {
-		case 0:
-			ar = 3
-		case 1:
-			if i >= m { // the first m sections keep two, which guarantees sharing
-				ar = 1
+	// every section mentions 1..3 metavariables picked at random; every metavariable occurs in at least two sections
+	// (a metavariable bound by an early section may not be looked at again before a late one)
+	var secs [][]string
+	for try := 0; try < 50; try++ {
+		secs = make([][]string, k)
+		count := map[string]int{}
+		for i := range secs {
+			ar := 1 + r.Intn(3)
+			if ar > m {
+				ar = m
+			}
+			for _, j := range r.Perm(m)[:ar] {
+				secs[i] = append(secs[i], names[j])
+				count[names[j]]++
 			}
 		}
-		for j := 0; j < ar && j < m; j++ {
-			secs[i] = append(secs[i], names[(i+j)%m])
+		ok := true
+		for _, n := range names {
+			if count[n] < 2 {
+				ok = false
+			}
+		}
+		if ok {
+			break
+		}
+		if try == 49 {
+			for i := range secs {
+				secs[i] = []string{names[i%m], names[(i+1)%m]}
+			}
 		}
 	}
 	stmts := r.Intn(2) == 0
@@ -83,8 +98,27 @@ func (g *G) SharedSectionsChange() *Change {
 		var elems []string
 		for i, s := range secs {
 			// dead ends in front of the right candidate: one argument differs
-			for d := 0; d < r.Intn(3); d++ {
-				wrong := s[r.Intn(len(s))]
+			// a dead end binds a metavariable that this section is the first to mention to something the later
+			// sections contradict
+			var fresh []string
+			for _, v := range s {
+				first := true
+				for _, ps := range secs[:i] {
+					for _, pv := range ps {
+						if pv == v {
+							first = false
+						}
+					}
+				}
+				if first {
+					fresh = append(fresh, v)
+				}
+			}
+			if len(fresh) == 0 {
+				fresh = s
+			}
+			for d := 0; d < r.Intn(4); d++ {
+				wrong := fresh[r.Intn(len(fresh))]
 				elems = append(elems, call(s, func(v string) string {
 					if v == wrong {
 						return fmt.Sprintf("dead%d_%d", i, d)
